@@ -6,6 +6,11 @@ HERE = os.path.dirname(os.path.dirname(os.path.abspath(__file__)))
 
 # id -> (category, technique, level text, level note, design ref)
 CHECKS = {
+ "C10": ("exploration",
+         "property-based testing: span-tiling invariant, exact u128 integer oracle, correctly-rounded float oracle (Rust str::parse), output round-trip",
+         "Random token soups with every trivia kind (comments, CRLF, backslash splices) are lexed and the token spans must tile the input exactly, with separated pieces coming back one token each and error positions inside the file; integer spellings (dec/hex/octal x suffixes, biased to 2^31..2^64+1, up to 25 digits) must carry their exact value or be rejected when >= 2^64; float spellings (<= 20 significant digits, exponents -330..310, every suffix) must have the bits of the correctly rounded double (narrowed once for f/h); each literal compiled into `T f(){return lit;}` must re-read from the emitted HLSL with the same value and type. About 1 M cases quick, 19 M thorough.",
+         "Trusted: Rust's str::parse::<f64>/<f32> are correctly rounded. L-suffixed integers in [2^63,2^64) and the 0X prefix are outside the checked domain.",
+         "DESIGN.md section 3, C10"),
  "C19": ("exploration",
          "property-based testing against two independent layout calculators",
          "Random struct definitions (nesting <= 3, scalars/vectors/enums/arrays/nested structs) used through every buffer element position are compiled with layout validation on; accept => the harness-computed HLSL and Metal layouts (size and every leaf offset) are identical; reject => the reported sizes/offsets equal the harness-computed ones. 40 000 (quick) / 1 000 000 (thorough) generated programs, shrunk on failure.",
